@@ -65,11 +65,49 @@ impl ::core::convert::From<Tsmall> for u8 {
     }
 }
 
+#[asn(choice)]
+
+#[derive(Debug, Clone, PartialEq, Hash)]
+pub enum Tchoice {
+    #[asn(integer(0..7))] I(u8),
+    #[asn(boolean)] B(bool),
+}
+
+impl Tchoice {
+    pub fn variants() -> [Self; 2] {
+        [
+        Tchoice::I(Default::default()),
+        Tchoice::B(Default::default()),
+        ]
+    }
+
+    pub fn value_index(&self) -> usize {
+        match self {
+            Tchoice::I(_) => 0,
+            Tchoice::B(_) => 1,
+        }
+    }
+
+    pub const fn i_min() -> u8 {
+        0
+    }
+
+    pub const fn i_max() -> u8 {
+        7
+    }
+}
+
+impl Default for Tchoice {
+    fn default() -> Tchoice {
+        Tchoice::I(Default::default())
+    }
+}
+
 #[asn(sequence)]
 
 #[derive(Default, Debug, Clone, PartialEq, Hash)]
 pub struct Tr1mn {
-    #[asn(complex(Tplain, tag(UNIVERSAL(16))))] pub f0: Tplain,
+    #[asn(complex(Tchoice, tag(UNIVERSAL(1))))] pub f0: Tchoice,
 }
 
 impl Tr1mn {
@@ -79,7 +117,7 @@ impl Tr1mn {
 
 #[derive(Default, Debug, Clone, PartialEq, Hash)]
 pub struct Tr1me0 {
-    #[asn(complex(Tplain, tag(UNIVERSAL(16))))] pub f0: Tplain,
+    #[asn(complex(Tchoice, tag(UNIVERSAL(1))))] pub f0: Tchoice,
 }
 
 impl Tr1me0 {
@@ -89,7 +127,7 @@ impl Tr1me0 {
 
 #[derive(Default, Debug, Clone, PartialEq, Hash)]
 pub struct Tr1me1 {
-    #[asn(complex(Tplain, tag(UNIVERSAL(16))))] pub f0: Tplain,
+    #[asn(complex(Tchoice, tag(UNIVERSAL(1))))] pub f0: Tchoice,
 }
 
 impl Tr1me1 {
@@ -99,7 +137,7 @@ impl Tr1me1 {
 
 #[derive(Default, Debug, Clone, PartialEq, Hash)]
 pub struct Tr1on {
-    #[asn(optional(complex(Tplain, tag(UNIVERSAL(16)))))] pub f0: Option<Tplain>,
+    #[asn(optional(complex(Tchoice, tag(UNIVERSAL(1)))))] pub f0: Option<Tchoice>,
 }
 
 impl Tr1on {
@@ -109,7 +147,7 @@ impl Tr1on {
 
 #[derive(Default, Debug, Clone, PartialEq, Hash)]
 pub struct Tr1oe0 {
-    #[asn(optional(complex(Tplain, tag(UNIVERSAL(16)))))] pub f0: Option<Tplain>,
+    #[asn(optional(complex(Tchoice, tag(UNIVERSAL(1)))))] pub f0: Option<Tchoice>,
 }
 
 impl Tr1oe0 {
@@ -119,7 +157,7 @@ impl Tr1oe0 {
 
 #[derive(Default, Debug, Clone, PartialEq, Hash)]
 pub struct Tr1oe1 {
-    #[asn(optional(complex(Tplain, tag(UNIVERSAL(16)))))] pub f0: Option<Tplain>,
+    #[asn(optional(complex(Tchoice, tag(UNIVERSAL(1)))))] pub f0: Option<Tchoice>,
 }
 
 impl Tr1oe1 {
@@ -129,8 +167,8 @@ impl Tr1oe1 {
 
 #[derive(Default, Debug, Clone, PartialEq, Hash)]
 pub struct Tr2mmn {
-    #[asn(complex(Tplain, tag(UNIVERSAL(16))))] pub f0: Tplain,
-    #[asn(complex(Tsmall, tag(UNIVERSAL(2))))] pub f1: Tsmall,
+    #[asn(complex(Tchoice, tag(UNIVERSAL(1))))] pub f0: Tchoice,
+    #[asn(complex(Tplain, tag(UNIVERSAL(16))))] pub f1: Tplain,
 }
 
 impl Tr2mmn {
@@ -140,8 +178,8 @@ impl Tr2mmn {
 
 #[derive(Default, Debug, Clone, PartialEq, Hash)]
 pub struct Tr2mme0 {
-    #[asn(complex(Tplain, tag(UNIVERSAL(16))))] pub f0: Tplain,
-    #[asn(optional(complex(Tsmall, tag(UNIVERSAL(2)))))] pub f1: Option<Tsmall>,
+    #[asn(complex(Tchoice, tag(UNIVERSAL(1))))] pub f0: Tchoice,
+    #[asn(optional(complex(Tplain, tag(UNIVERSAL(16)))))] pub f1: Option<Tplain>,
 }
 
 impl Tr2mme0 {
@@ -151,8 +189,8 @@ impl Tr2mme0 {
 
 #[derive(Default, Debug, Clone, PartialEq, Hash)]
 pub struct Tr2mme1 {
-    #[asn(complex(Tplain, tag(UNIVERSAL(16))))] pub f0: Tplain,
-    #[asn(optional(complex(Tsmall, tag(UNIVERSAL(2)))))] pub f1: Option<Tsmall>,
+    #[asn(complex(Tchoice, tag(UNIVERSAL(1))))] pub f0: Tchoice,
+    #[asn(optional(complex(Tplain, tag(UNIVERSAL(16)))))] pub f1: Option<Tplain>,
 }
 
 impl Tr2mme1 {
@@ -162,8 +200,8 @@ impl Tr2mme1 {
 
 #[derive(Default, Debug, Clone, PartialEq, Hash)]
 pub struct Tr2mme2 {
-    #[asn(complex(Tplain, tag(UNIVERSAL(16))))] pub f0: Tplain,
-    #[asn(complex(Tsmall, tag(UNIVERSAL(2))))] pub f1: Tsmall,
+    #[asn(complex(Tchoice, tag(UNIVERSAL(1))))] pub f0: Tchoice,
+    #[asn(complex(Tplain, tag(UNIVERSAL(16))))] pub f1: Tplain,
 }
 
 impl Tr2mme2 {
@@ -173,8 +211,8 @@ impl Tr2mme2 {
 
 #[derive(Default, Debug, Clone, PartialEq, Hash)]
 pub struct Tr2omn {
-    #[asn(optional(complex(Tplain, tag(UNIVERSAL(16)))))] pub f0: Option<Tplain>,
-    #[asn(complex(Tsmall, tag(UNIVERSAL(2))))] pub f1: Tsmall,
+    #[asn(optional(complex(Tchoice, tag(UNIVERSAL(1)))))] pub f0: Option<Tchoice>,
+    #[asn(complex(Tplain, tag(UNIVERSAL(16))))] pub f1: Tplain,
 }
 
 impl Tr2omn {
@@ -184,8 +222,8 @@ impl Tr2omn {
 
 #[derive(Default, Debug, Clone, PartialEq, Hash)]
 pub struct Tr2ome0 {
-    #[asn(optional(complex(Tplain, tag(UNIVERSAL(16)))))] pub f0: Option<Tplain>,
-    #[asn(optional(complex(Tsmall, tag(UNIVERSAL(2)))))] pub f1: Option<Tsmall>,
+    #[asn(optional(complex(Tchoice, tag(UNIVERSAL(1)))))] pub f0: Option<Tchoice>,
+    #[asn(optional(complex(Tplain, tag(UNIVERSAL(16)))))] pub f1: Option<Tplain>,
 }
 
 impl Tr2ome0 {
@@ -195,8 +233,8 @@ impl Tr2ome0 {
 
 #[derive(Default, Debug, Clone, PartialEq, Hash)]
 pub struct Tr2ome1 {
-    #[asn(optional(complex(Tplain, tag(UNIVERSAL(16)))))] pub f0: Option<Tplain>,
-    #[asn(optional(complex(Tsmall, tag(UNIVERSAL(2)))))] pub f1: Option<Tsmall>,
+    #[asn(optional(complex(Tchoice, tag(UNIVERSAL(1)))))] pub f0: Option<Tchoice>,
+    #[asn(optional(complex(Tplain, tag(UNIVERSAL(16)))))] pub f1: Option<Tplain>,
 }
 
 impl Tr2ome1 {
@@ -206,8 +244,8 @@ impl Tr2ome1 {
 
 #[derive(Default, Debug, Clone, PartialEq, Hash)]
 pub struct Tr2ome2 {
-    #[asn(optional(complex(Tplain, tag(UNIVERSAL(16)))))] pub f0: Option<Tplain>,
-    #[asn(complex(Tsmall, tag(UNIVERSAL(2))))] pub f1: Tsmall,
+    #[asn(optional(complex(Tchoice, tag(UNIVERSAL(1)))))] pub f0: Option<Tchoice>,
+    #[asn(complex(Tplain, tag(UNIVERSAL(16))))] pub f1: Tplain,
 }
 
 impl Tr2ome2 {
@@ -217,8 +255,8 @@ impl Tr2ome2 {
 
 #[derive(Default, Debug, Clone, PartialEq, Hash)]
 pub struct Tr2mon {
-    #[asn(complex(Tplain, tag(UNIVERSAL(16))))] pub f0: Tplain,
-    #[asn(optional(complex(Tsmall, tag(UNIVERSAL(2)))))] pub f1: Option<Tsmall>,
+    #[asn(complex(Tchoice, tag(UNIVERSAL(1))))] pub f0: Tchoice,
+    #[asn(optional(complex(Tplain, tag(UNIVERSAL(16)))))] pub f1: Option<Tplain>,
 }
 
 impl Tr2mon {
@@ -228,8 +266,8 @@ impl Tr2mon {
 
 #[derive(Default, Debug, Clone, PartialEq, Hash)]
 pub struct Tr2moe0 {
-    #[asn(complex(Tplain, tag(UNIVERSAL(16))))] pub f0: Tplain,
-    #[asn(optional(complex(Tsmall, tag(UNIVERSAL(2)))))] pub f1: Option<Tsmall>,
+    #[asn(complex(Tchoice, tag(UNIVERSAL(1))))] pub f0: Tchoice,
+    #[asn(optional(complex(Tplain, tag(UNIVERSAL(16)))))] pub f1: Option<Tplain>,
 }
 
 impl Tr2moe0 {
@@ -239,8 +277,8 @@ impl Tr2moe0 {
 
 #[derive(Default, Debug, Clone, PartialEq, Hash)]
 pub struct Tr2moe1 {
-    #[asn(complex(Tplain, tag(UNIVERSAL(16))))] pub f0: Tplain,
-    #[asn(optional(complex(Tsmall, tag(UNIVERSAL(2)))))] pub f1: Option<Tsmall>,
+    #[asn(complex(Tchoice, tag(UNIVERSAL(1))))] pub f0: Tchoice,
+    #[asn(optional(complex(Tplain, tag(UNIVERSAL(16)))))] pub f1: Option<Tplain>,
 }
 
 impl Tr2moe1 {
@@ -250,8 +288,8 @@ impl Tr2moe1 {
 
 #[derive(Default, Debug, Clone, PartialEq, Hash)]
 pub struct Tr2moe2 {
-    #[asn(complex(Tplain, tag(UNIVERSAL(16))))] pub f0: Tplain,
-    #[asn(optional(complex(Tsmall, tag(UNIVERSAL(2)))))] pub f1: Option<Tsmall>,
+    #[asn(complex(Tchoice, tag(UNIVERSAL(1))))] pub f0: Tchoice,
+    #[asn(optional(complex(Tplain, tag(UNIVERSAL(16)))))] pub f1: Option<Tplain>,
 }
 
 impl Tr2moe2 {
@@ -261,8 +299,8 @@ impl Tr2moe2 {
 
 #[derive(Default, Debug, Clone, PartialEq, Hash)]
 pub struct Tr2oon {
-    #[asn(optional(complex(Tplain, tag(UNIVERSAL(16)))))] pub f0: Option<Tplain>,
-    #[asn(optional(complex(Tsmall, tag(UNIVERSAL(2)))))] pub f1: Option<Tsmall>,
+    #[asn(optional(complex(Tchoice, tag(UNIVERSAL(1)))))] pub f0: Option<Tchoice>,
+    #[asn(optional(complex(Tplain, tag(UNIVERSAL(16)))))] pub f1: Option<Tplain>,
 }
 
 impl Tr2oon {
@@ -272,8 +310,8 @@ impl Tr2oon {
 
 #[derive(Default, Debug, Clone, PartialEq, Hash)]
 pub struct Tr2ooe0 {
-    #[asn(optional(complex(Tplain, tag(UNIVERSAL(16)))))] pub f0: Option<Tplain>,
-    #[asn(optional(complex(Tsmall, tag(UNIVERSAL(2)))))] pub f1: Option<Tsmall>,
+    #[asn(optional(complex(Tchoice, tag(UNIVERSAL(1)))))] pub f0: Option<Tchoice>,
+    #[asn(optional(complex(Tplain, tag(UNIVERSAL(16)))))] pub f1: Option<Tplain>,
 }
 
 impl Tr2ooe0 {
@@ -283,8 +321,8 @@ impl Tr2ooe0 {
 
 #[derive(Default, Debug, Clone, PartialEq, Hash)]
 pub struct Tr2ooe1 {
-    #[asn(optional(complex(Tplain, tag(UNIVERSAL(16)))))] pub f0: Option<Tplain>,
-    #[asn(optional(complex(Tsmall, tag(UNIVERSAL(2)))))] pub f1: Option<Tsmall>,
+    #[asn(optional(complex(Tchoice, tag(UNIVERSAL(1)))))] pub f0: Option<Tchoice>,
+    #[asn(optional(complex(Tplain, tag(UNIVERSAL(16)))))] pub f1: Option<Tplain>,
 }
 
 impl Tr2ooe1 {
@@ -294,8 +332,8 @@ impl Tr2ooe1 {
 
 #[derive(Default, Debug, Clone, PartialEq, Hash)]
 pub struct Tr2ooe2 {
-    #[asn(optional(complex(Tplain, tag(UNIVERSAL(16)))))] pub f0: Option<Tplain>,
-    #[asn(optional(complex(Tsmall, tag(UNIVERSAL(2)))))] pub f1: Option<Tsmall>,
+    #[asn(optional(complex(Tchoice, tag(UNIVERSAL(1)))))] pub f0: Option<Tchoice>,
+    #[asn(optional(complex(Tplain, tag(UNIVERSAL(16)))))] pub f1: Option<Tplain>,
 }
 
 impl Tr2ooe2 {
@@ -305,9 +343,9 @@ impl Tr2ooe2 {
 
 #[derive(Default, Debug, Clone, PartialEq, Hash)]
 pub struct Tr3mmmn {
-    #[asn(complex(Tplain, tag(UNIVERSAL(16))))] pub f0: Tplain,
-    #[asn(complex(Tsmall, tag(UNIVERSAL(2))))] pub f1: Tsmall,
-    #[asn(complex(Tplain, tag(UNIVERSAL(16))))] pub f2: Tplain,
+    #[asn(complex(Tchoice, tag(UNIVERSAL(1))))] pub f0: Tchoice,
+    #[asn(complex(Tplain, tag(UNIVERSAL(16))))] pub f1: Tplain,
+    #[asn(complex(Tsmall, tag(UNIVERSAL(2))))] pub f2: Tsmall,
 }
 
 impl Tr3mmmn {
@@ -317,9 +355,9 @@ impl Tr3mmmn {
 
 #[derive(Default, Debug, Clone, PartialEq, Hash)]
 pub struct Tr3mmme0 {
-    #[asn(complex(Tplain, tag(UNIVERSAL(16))))] pub f0: Tplain,
-    #[asn(optional(complex(Tsmall, tag(UNIVERSAL(2)))))] pub f1: Option<Tsmall>,
-    #[asn(optional(complex(Tplain, tag(UNIVERSAL(16)))))] pub f2: Option<Tplain>,
+    #[asn(complex(Tchoice, tag(UNIVERSAL(1))))] pub f0: Tchoice,
+    #[asn(optional(complex(Tplain, tag(UNIVERSAL(16)))))] pub f1: Option<Tplain>,
+    #[asn(optional(complex(Tsmall, tag(UNIVERSAL(2)))))] pub f2: Option<Tsmall>,
 }
 
 impl Tr3mmme0 {
@@ -329,9 +367,9 @@ impl Tr3mmme0 {
 
 #[derive(Default, Debug, Clone, PartialEq, Hash)]
 pub struct Tr3mmme1 {
-    #[asn(complex(Tplain, tag(UNIVERSAL(16))))] pub f0: Tplain,
-    #[asn(optional(complex(Tsmall, tag(UNIVERSAL(2)))))] pub f1: Option<Tsmall>,
-    #[asn(optional(complex(Tplain, tag(UNIVERSAL(16)))))] pub f2: Option<Tplain>,
+    #[asn(complex(Tchoice, tag(UNIVERSAL(1))))] pub f0: Tchoice,
+    #[asn(optional(complex(Tplain, tag(UNIVERSAL(16)))))] pub f1: Option<Tplain>,
+    #[asn(optional(complex(Tsmall, tag(UNIVERSAL(2)))))] pub f2: Option<Tsmall>,
 }
 
 impl Tr3mmme1 {
@@ -341,9 +379,9 @@ impl Tr3mmme1 {
 
 #[derive(Default, Debug, Clone, PartialEq, Hash)]
 pub struct Tr3mmme2 {
-    #[asn(complex(Tplain, tag(UNIVERSAL(16))))] pub f0: Tplain,
-    #[asn(complex(Tsmall, tag(UNIVERSAL(2))))] pub f1: Tsmall,
-    #[asn(optional(complex(Tplain, tag(UNIVERSAL(16)))))] pub f2: Option<Tplain>,
+    #[asn(complex(Tchoice, tag(UNIVERSAL(1))))] pub f0: Tchoice,
+    #[asn(complex(Tplain, tag(UNIVERSAL(16))))] pub f1: Tplain,
+    #[asn(optional(complex(Tsmall, tag(UNIVERSAL(2)))))] pub f2: Option<Tsmall>,
 }
 
 impl Tr3mmme2 {
@@ -353,9 +391,9 @@ impl Tr3mmme2 {
 
 #[derive(Default, Debug, Clone, PartialEq, Hash)]
 pub struct Tr3mmme3 {
-    #[asn(complex(Tplain, tag(UNIVERSAL(16))))] pub f0: Tplain,
-    #[asn(complex(Tsmall, tag(UNIVERSAL(2))))] pub f1: Tsmall,
-    #[asn(complex(Tplain, tag(UNIVERSAL(16))))] pub f2: Tplain,
+    #[asn(complex(Tchoice, tag(UNIVERSAL(1))))] pub f0: Tchoice,
+    #[asn(complex(Tplain, tag(UNIVERSAL(16))))] pub f1: Tplain,
+    #[asn(complex(Tsmall, tag(UNIVERSAL(2))))] pub f2: Tsmall,
 }
 
 impl Tr3mmme3 {
@@ -365,9 +403,9 @@ impl Tr3mmme3 {
 
 #[derive(Default, Debug, Clone, PartialEq, Hash)]
 pub struct Tr3ommn {
-    #[asn(optional(complex(Tplain, tag(UNIVERSAL(16)))))] pub f0: Option<Tplain>,
-    #[asn(complex(Tsmall, tag(UNIVERSAL(2))))] pub f1: Tsmall,
-    #[asn(complex(Tplain, tag(UNIVERSAL(16))))] pub f2: Tplain,
+    #[asn(optional(complex(Tchoice, tag(UNIVERSAL(1)))))] pub f0: Option<Tchoice>,
+    #[asn(complex(Tplain, tag(UNIVERSAL(16))))] pub f1: Tplain,
+    #[asn(complex(Tsmall, tag(UNIVERSAL(2))))] pub f2: Tsmall,
 }
 
 impl Tr3ommn {
@@ -377,9 +415,9 @@ impl Tr3ommn {
 
 #[derive(Default, Debug, Clone, PartialEq, Hash)]
 pub struct Tr3omme0 {
-    #[asn(optional(complex(Tplain, tag(UNIVERSAL(16)))))] pub f0: Option<Tplain>,
-    #[asn(optional(complex(Tsmall, tag(UNIVERSAL(2)))))] pub f1: Option<Tsmall>,
-    #[asn(optional(complex(Tplain, tag(UNIVERSAL(16)))))] pub f2: Option<Tplain>,
+    #[asn(optional(complex(Tchoice, tag(UNIVERSAL(1)))))] pub f0: Option<Tchoice>,
+    #[asn(optional(complex(Tplain, tag(UNIVERSAL(16)))))] pub f1: Option<Tplain>,
+    #[asn(optional(complex(Tsmall, tag(UNIVERSAL(2)))))] pub f2: Option<Tsmall>,
 }
 
 impl Tr3omme0 {
@@ -389,9 +427,9 @@ impl Tr3omme0 {
 
 #[derive(Default, Debug, Clone, PartialEq, Hash)]
 pub struct Tr3omme1 {
-    #[asn(optional(complex(Tplain, tag(UNIVERSAL(16)))))] pub f0: Option<Tplain>,
-    #[asn(optional(complex(Tsmall, tag(UNIVERSAL(2)))))] pub f1: Option<Tsmall>,
-    #[asn(optional(complex(Tplain, tag(UNIVERSAL(16)))))] pub f2: Option<Tplain>,
+    #[asn(optional(complex(Tchoice, tag(UNIVERSAL(1)))))] pub f0: Option<Tchoice>,
+    #[asn(optional(complex(Tplain, tag(UNIVERSAL(16)))))] pub f1: Option<Tplain>,
+    #[asn(optional(complex(Tsmall, tag(UNIVERSAL(2)))))] pub f2: Option<Tsmall>,
 }
 
 impl Tr3omme1 {
@@ -401,9 +439,9 @@ impl Tr3omme1 {
 
 #[derive(Default, Debug, Clone, PartialEq, Hash)]
 pub struct Tr3omme2 {
-    #[asn(optional(complex(Tplain, tag(UNIVERSAL(16)))))] pub f0: Option<Tplain>,
-    #[asn(complex(Tsmall, tag(UNIVERSAL(2))))] pub f1: Tsmall,
-    #[asn(optional(complex(Tplain, tag(UNIVERSAL(16)))))] pub f2: Option<Tplain>,
+    #[asn(optional(complex(Tchoice, tag(UNIVERSAL(1)))))] pub f0: Option<Tchoice>,
+    #[asn(complex(Tplain, tag(UNIVERSAL(16))))] pub f1: Tplain,
+    #[asn(optional(complex(Tsmall, tag(UNIVERSAL(2)))))] pub f2: Option<Tsmall>,
 }
 
 impl Tr3omme2 {
@@ -413,9 +451,9 @@ impl Tr3omme2 {
 
 #[derive(Default, Debug, Clone, PartialEq, Hash)]
 pub struct Tr3omme3 {
-    #[asn(optional(complex(Tplain, tag(UNIVERSAL(16)))))] pub f0: Option<Tplain>,
-    #[asn(complex(Tsmall, tag(UNIVERSAL(2))))] pub f1: Tsmall,
-    #[asn(complex(Tplain, tag(UNIVERSAL(16))))] pub f2: Tplain,
+    #[asn(optional(complex(Tchoice, tag(UNIVERSAL(1)))))] pub f0: Option<Tchoice>,
+    #[asn(complex(Tplain, tag(UNIVERSAL(16))))] pub f1: Tplain,
+    #[asn(complex(Tsmall, tag(UNIVERSAL(2))))] pub f2: Tsmall,
 }
 
 impl Tr3omme3 {
@@ -425,9 +463,9 @@ impl Tr3omme3 {
 
 #[derive(Default, Debug, Clone, PartialEq, Hash)]
 pub struct Tr3momn {
-    #[asn(complex(Tplain, tag(UNIVERSAL(16))))] pub f0: Tplain,
-    #[asn(optional(complex(Tsmall, tag(UNIVERSAL(2)))))] pub f1: Option<Tsmall>,
-    #[asn(complex(Tplain, tag(UNIVERSAL(16))))] pub f2: Tplain,
+    #[asn(complex(Tchoice, tag(UNIVERSAL(1))))] pub f0: Tchoice,
+    #[asn(optional(complex(Tplain, tag(UNIVERSAL(16)))))] pub f1: Option<Tplain>,
+    #[asn(complex(Tsmall, tag(UNIVERSAL(2))))] pub f2: Tsmall,
 }
 
 impl Tr3momn {
@@ -437,9 +475,9 @@ impl Tr3momn {
 
 #[derive(Default, Debug, Clone, PartialEq, Hash)]
 pub struct Tr3mome0 {
-    #[asn(complex(Tplain, tag(UNIVERSAL(16))))] pub f0: Tplain,
-    #[asn(optional(complex(Tsmall, tag(UNIVERSAL(2)))))] pub f1: Option<Tsmall>,
-    #[asn(optional(complex(Tplain, tag(UNIVERSAL(16)))))] pub f2: Option<Tplain>,
+    #[asn(complex(Tchoice, tag(UNIVERSAL(1))))] pub f0: Tchoice,
+    #[asn(optional(complex(Tplain, tag(UNIVERSAL(16)))))] pub f1: Option<Tplain>,
+    #[asn(optional(complex(Tsmall, tag(UNIVERSAL(2)))))] pub f2: Option<Tsmall>,
 }
 
 impl Tr3mome0 {
@@ -449,9 +487,9 @@ impl Tr3mome0 {
 
 #[derive(Default, Debug, Clone, PartialEq, Hash)]
 pub struct Tr3mome1 {
-    #[asn(complex(Tplain, tag(UNIVERSAL(16))))] pub f0: Tplain,
-    #[asn(optional(complex(Tsmall, tag(UNIVERSAL(2)))))] pub f1: Option<Tsmall>,
-    #[asn(optional(complex(Tplain, tag(UNIVERSAL(16)))))] pub f2: Option<Tplain>,
+    #[asn(complex(Tchoice, tag(UNIVERSAL(1))))] pub f0: Tchoice,
+    #[asn(optional(complex(Tplain, tag(UNIVERSAL(16)))))] pub f1: Option<Tplain>,
+    #[asn(optional(complex(Tsmall, tag(UNIVERSAL(2)))))] pub f2: Option<Tsmall>,
 }
 
 impl Tr3mome1 {
@@ -461,9 +499,9 @@ impl Tr3mome1 {
 
 #[derive(Default, Debug, Clone, PartialEq, Hash)]
 pub struct Tr3mome2 {
-    #[asn(complex(Tplain, tag(UNIVERSAL(16))))] pub f0: Tplain,
-    #[asn(optional(complex(Tsmall, tag(UNIVERSAL(2)))))] pub f1: Option<Tsmall>,
-    #[asn(optional(complex(Tplain, tag(UNIVERSAL(16)))))] pub f2: Option<Tplain>,
+    #[asn(complex(Tchoice, tag(UNIVERSAL(1))))] pub f0: Tchoice,
+    #[asn(optional(complex(Tplain, tag(UNIVERSAL(16)))))] pub f1: Option<Tplain>,
+    #[asn(optional(complex(Tsmall, tag(UNIVERSAL(2)))))] pub f2: Option<Tsmall>,
 }
 
 impl Tr3mome2 {
@@ -473,9 +511,9 @@ impl Tr3mome2 {
 
 #[derive(Default, Debug, Clone, PartialEq, Hash)]
 pub struct Tr3mome3 {
-    #[asn(complex(Tplain, tag(UNIVERSAL(16))))] pub f0: Tplain,
-    #[asn(optional(complex(Tsmall, tag(UNIVERSAL(2)))))] pub f1: Option<Tsmall>,
-    #[asn(complex(Tplain, tag(UNIVERSAL(16))))] pub f2: Tplain,
+    #[asn(complex(Tchoice, tag(UNIVERSAL(1))))] pub f0: Tchoice,
+    #[asn(optional(complex(Tplain, tag(UNIVERSAL(16)))))] pub f1: Option<Tplain>,
+    #[asn(complex(Tsmall, tag(UNIVERSAL(2))))] pub f2: Tsmall,
 }
 
 impl Tr3mome3 {
@@ -485,9 +523,9 @@ impl Tr3mome3 {
 
 #[derive(Default, Debug, Clone, PartialEq, Hash)]
 pub struct Tr3oomn {
-    #[asn(optional(complex(Tplain, tag(UNIVERSAL(16)))))] pub f0: Option<Tplain>,
-    #[asn(optional(complex(Tsmall, tag(UNIVERSAL(2)))))] pub f1: Option<Tsmall>,
-    #[asn(complex(Tplain, tag(UNIVERSAL(16))))] pub f2: Tplain,
+    #[asn(optional(complex(Tchoice, tag(UNIVERSAL(1)))))] pub f0: Option<Tchoice>,
+    #[asn(optional(complex(Tplain, tag(UNIVERSAL(16)))))] pub f1: Option<Tplain>,
+    #[asn(complex(Tsmall, tag(UNIVERSAL(2))))] pub f2: Tsmall,
 }
 
 impl Tr3oomn {
@@ -497,9 +535,9 @@ impl Tr3oomn {
 
 #[derive(Default, Debug, Clone, PartialEq, Hash)]
 pub struct Tr3oome0 {
-    #[asn(optional(complex(Tplain, tag(UNIVERSAL(16)))))] pub f0: Option<Tplain>,
-    #[asn(optional(complex(Tsmall, tag(UNIVERSAL(2)))))] pub f1: Option<Tsmall>,
-    #[asn(optional(complex(Tplain, tag(UNIVERSAL(16)))))] pub f2: Option<Tplain>,
+    #[asn(optional(complex(Tchoice, tag(UNIVERSAL(1)))))] pub f0: Option<Tchoice>,
+    #[asn(optional(complex(Tplain, tag(UNIVERSAL(16)))))] pub f1: Option<Tplain>,
+    #[asn(optional(complex(Tsmall, tag(UNIVERSAL(2)))))] pub f2: Option<Tsmall>,
 }
 
 impl Tr3oome0 {
@@ -509,9 +547,9 @@ impl Tr3oome0 {
 
 #[derive(Default, Debug, Clone, PartialEq, Hash)]
 pub struct Tr3oome1 {
-    #[asn(optional(complex(Tplain, tag(UNIVERSAL(16)))))] pub f0: Option<Tplain>,
-    #[asn(optional(complex(Tsmall, tag(UNIVERSAL(2)))))] pub f1: Option<Tsmall>,
-    #[asn(optional(complex(Tplain, tag(UNIVERSAL(16)))))] pub f2: Option<Tplain>,
+    #[asn(optional(complex(Tchoice, tag(UNIVERSAL(1)))))] pub f0: Option<Tchoice>,
+    #[asn(optional(complex(Tplain, tag(UNIVERSAL(16)))))] pub f1: Option<Tplain>,
+    #[asn(optional(complex(Tsmall, tag(UNIVERSAL(2)))))] pub f2: Option<Tsmall>,
 }
 
 impl Tr3oome1 {
@@ -521,9 +559,9 @@ impl Tr3oome1 {
 
 #[derive(Default, Debug, Clone, PartialEq, Hash)]
 pub struct Tr3oome2 {
-    #[asn(optional(complex(Tplain, tag(UNIVERSAL(16)))))] pub f0: Option<Tplain>,
-    #[asn(optional(complex(Tsmall, tag(UNIVERSAL(2)))))] pub f1: Option<Tsmall>,
-    #[asn(optional(complex(Tplain, tag(UNIVERSAL(16)))))] pub f2: Option<Tplain>,
+    #[asn(optional(complex(Tchoice, tag(UNIVERSAL(1)))))] pub f0: Option<Tchoice>,
+    #[asn(optional(complex(Tplain, tag(UNIVERSAL(16)))))] pub f1: Option<Tplain>,
+    #[asn(optional(complex(Tsmall, tag(UNIVERSAL(2)))))] pub f2: Option<Tsmall>,
 }
 
 impl Tr3oome2 {
@@ -533,9 +571,9 @@ impl Tr3oome2 {
 
 #[derive(Default, Debug, Clone, PartialEq, Hash)]
 pub struct Tr3oome3 {
-    #[asn(optional(complex(Tplain, tag(UNIVERSAL(16)))))] pub f0: Option<Tplain>,
-    #[asn(optional(complex(Tsmall, tag(UNIVERSAL(2)))))] pub f1: Option<Tsmall>,
-    #[asn(complex(Tplain, tag(UNIVERSAL(16))))] pub f2: Tplain,
+    #[asn(optional(complex(Tchoice, tag(UNIVERSAL(1)))))] pub f0: Option<Tchoice>,
+    #[asn(optional(complex(Tplain, tag(UNIVERSAL(16)))))] pub f1: Option<Tplain>,
+    #[asn(complex(Tsmall, tag(UNIVERSAL(2))))] pub f2: Tsmall,
 }
 
 impl Tr3oome3 {
@@ -545,9 +583,9 @@ impl Tr3oome3 {
 
 #[derive(Default, Debug, Clone, PartialEq, Hash)]
 pub struct Tr3mmon {
-    #[asn(complex(Tplain, tag(UNIVERSAL(16))))] pub f0: Tplain,
-    #[asn(complex(Tsmall, tag(UNIVERSAL(2))))] pub f1: Tsmall,
-    #[asn(optional(complex(Tplain, tag(UNIVERSAL(16)))))] pub f2: Option<Tplain>,
+    #[asn(complex(Tchoice, tag(UNIVERSAL(1))))] pub f0: Tchoice,
+    #[asn(complex(Tplain, tag(UNIVERSAL(16))))] pub f1: Tplain,
+    #[asn(optional(complex(Tsmall, tag(UNIVERSAL(2)))))] pub f2: Option<Tsmall>,
 }
 
 impl Tr3mmon {
@@ -557,9 +595,9 @@ impl Tr3mmon {
 
 #[derive(Default, Debug, Clone, PartialEq, Hash)]
 pub struct Tr3mmoe0 {
-    #[asn(complex(Tplain, tag(UNIVERSAL(16))))] pub f0: Tplain,
-    #[asn(optional(complex(Tsmall, tag(UNIVERSAL(2)))))] pub f1: Option<Tsmall>,
-    #[asn(optional(complex(Tplain, tag(UNIVERSAL(16)))))] pub f2: Option<Tplain>,
+    #[asn(complex(Tchoice, tag(UNIVERSAL(1))))] pub f0: Tchoice,
+    #[asn(optional(complex(Tplain, tag(UNIVERSAL(16)))))] pub f1: Option<Tplain>,
+    #[asn(optional(complex(Tsmall, tag(UNIVERSAL(2)))))] pub f2: Option<Tsmall>,
 }
 
 impl Tr3mmoe0 {
@@ -569,9 +607,9 @@ impl Tr3mmoe0 {
 
 #[derive(Default, Debug, Clone, PartialEq, Hash)]
 pub struct Tr3mmoe1 {
-    #[asn(complex(Tplain, tag(UNIVERSAL(16))))] pub f0: Tplain,
-    #[asn(optional(complex(Tsmall, tag(UNIVERSAL(2)))))] pub f1: Option<Tsmall>,
-    #[asn(optional(complex(Tplain, tag(UNIVERSAL(16)))))] pub f2: Option<Tplain>,
+    #[asn(complex(Tchoice, tag(UNIVERSAL(1))))] pub f0: Tchoice,
+    #[asn(optional(complex(Tplain, tag(UNIVERSAL(16)))))] pub f1: Option<Tplain>,
+    #[asn(optional(complex(Tsmall, tag(UNIVERSAL(2)))))] pub f2: Option<Tsmall>,
 }
 
 impl Tr3mmoe1 {
@@ -581,9 +619,9 @@ impl Tr3mmoe1 {
 
 #[derive(Default, Debug, Clone, PartialEq, Hash)]
 pub struct Tr3mmoe2 {
-    #[asn(complex(Tplain, tag(UNIVERSAL(16))))] pub f0: Tplain,
-    #[asn(complex(Tsmall, tag(UNIVERSAL(2))))] pub f1: Tsmall,
-    #[asn(optional(complex(Tplain, tag(UNIVERSAL(16)))))] pub f2: Option<Tplain>,
+    #[asn(complex(Tchoice, tag(UNIVERSAL(1))))] pub f0: Tchoice,
+    #[asn(complex(Tplain, tag(UNIVERSAL(16))))] pub f1: Tplain,
+    #[asn(optional(complex(Tsmall, tag(UNIVERSAL(2)))))] pub f2: Option<Tsmall>,
 }
 
 impl Tr3mmoe2 {
@@ -593,9 +631,9 @@ impl Tr3mmoe2 {
 
 #[derive(Default, Debug, Clone, PartialEq, Hash)]
 pub struct Tr3mmoe3 {
-    #[asn(complex(Tplain, tag(UNIVERSAL(16))))] pub f0: Tplain,
-    #[asn(complex(Tsmall, tag(UNIVERSAL(2))))] pub f1: Tsmall,
-    #[asn(optional(complex(Tplain, tag(UNIVERSAL(16)))))] pub f2: Option<Tplain>,
+    #[asn(complex(Tchoice, tag(UNIVERSAL(1))))] pub f0: Tchoice,
+    #[asn(complex(Tplain, tag(UNIVERSAL(16))))] pub f1: Tplain,
+    #[asn(optional(complex(Tsmall, tag(UNIVERSAL(2)))))] pub f2: Option<Tsmall>,
 }
 
 impl Tr3mmoe3 {
@@ -605,9 +643,9 @@ impl Tr3mmoe3 {
 
 #[derive(Default, Debug, Clone, PartialEq, Hash)]
 pub struct Tr3omon {
-    #[asn(optional(complex(Tplain, tag(UNIVERSAL(16)))))] pub f0: Option<Tplain>,
-    #[asn(complex(Tsmall, tag(UNIVERSAL(2))))] pub f1: Tsmall,
-    #[asn(optional(complex(Tplain, tag(UNIVERSAL(16)))))] pub f2: Option<Tplain>,
+    #[asn(optional(complex(Tchoice, tag(UNIVERSAL(1)))))] pub f0: Option<Tchoice>,
+    #[asn(complex(Tplain, tag(UNIVERSAL(16))))] pub f1: Tplain,
+    #[asn(optional(complex(Tsmall, tag(UNIVERSAL(2)))))] pub f2: Option<Tsmall>,
 }
 
 impl Tr3omon {
@@ -617,9 +655,9 @@ impl Tr3omon {
 
 #[derive(Default, Debug, Clone, PartialEq, Hash)]
 pub struct Tr3omoe0 {
-    #[asn(optional(complex(Tplain, tag(UNIVERSAL(16)))))] pub f0: Option<Tplain>,
-    #[asn(optional(complex(Tsmall, tag(UNIVERSAL(2)))))] pub f1: Option<Tsmall>,
-    #[asn(optional(complex(Tplain, tag(UNIVERSAL(16)))))] pub f2: Option<Tplain>,
+    #[asn(optional(complex(Tchoice, tag(UNIVERSAL(1)))))] pub f0: Option<Tchoice>,
+    #[asn(optional(complex(Tplain, tag(UNIVERSAL(16)))))] pub f1: Option<Tplain>,
+    #[asn(optional(complex(Tsmall, tag(UNIVERSAL(2)))))] pub f2: Option<Tsmall>,
 }
 
 impl Tr3omoe0 {
@@ -629,9 +667,9 @@ impl Tr3omoe0 {
 
 #[derive(Default, Debug, Clone, PartialEq, Hash)]
 pub struct Tr3omoe1 {
-    #[asn(optional(complex(Tplain, tag(UNIVERSAL(16)))))] pub f0: Option<Tplain>,
-    #[asn(optional(complex(Tsmall, tag(UNIVERSAL(2)))))] pub f1: Option<Tsmall>,
-    #[asn(optional(complex(Tplain, tag(UNIVERSAL(16)))))] pub f2: Option<Tplain>,
+    #[asn(optional(complex(Tchoice, tag(UNIVERSAL(1)))))] pub f0: Option<Tchoice>,
+    #[asn(optional(complex(Tplain, tag(UNIVERSAL(16)))))] pub f1: Option<Tplain>,
+    #[asn(optional(complex(Tsmall, tag(UNIVERSAL(2)))))] pub f2: Option<Tsmall>,
 }
 
 impl Tr3omoe1 {
@@ -641,9 +679,9 @@ impl Tr3omoe1 {
 
 #[derive(Default, Debug, Clone, PartialEq, Hash)]
 pub struct Tr3omoe2 {
-    #[asn(optional(complex(Tplain, tag(UNIVERSAL(16)))))] pub f0: Option<Tplain>,
-    #[asn(complex(Tsmall, tag(UNIVERSAL(2))))] pub f1: Tsmall,
-    #[asn(optional(complex(Tplain, tag(UNIVERSAL(16)))))] pub f2: Option<Tplain>,
+    #[asn(optional(complex(Tchoice, tag(UNIVERSAL(1)))))] pub f0: Option<Tchoice>,
+    #[asn(complex(Tplain, tag(UNIVERSAL(16))))] pub f1: Tplain,
+    #[asn(optional(complex(Tsmall, tag(UNIVERSAL(2)))))] pub f2: Option<Tsmall>,
 }
 
 impl Tr3omoe2 {
@@ -653,9 +691,9 @@ impl Tr3omoe2 {
 
 #[derive(Default, Debug, Clone, PartialEq, Hash)]
 pub struct Tr3omoe3 {
-    #[asn(optional(complex(Tplain, tag(UNIVERSAL(16)))))] pub f0: Option<Tplain>,
-    #[asn(complex(Tsmall, tag(UNIVERSAL(2))))] pub f1: Tsmall,
-    #[asn(optional(complex(Tplain, tag(UNIVERSAL(16)))))] pub f2: Option<Tplain>,
+    #[asn(optional(complex(Tchoice, tag(UNIVERSAL(1)))))] pub f0: Option<Tchoice>,
+    #[asn(complex(Tplain, tag(UNIVERSAL(16))))] pub f1: Tplain,
+    #[asn(optional(complex(Tsmall, tag(UNIVERSAL(2)))))] pub f2: Option<Tsmall>,
 }
 
 impl Tr3omoe3 {
@@ -665,9 +703,9 @@ impl Tr3omoe3 {
 
 #[derive(Default, Debug, Clone, PartialEq, Hash)]
 pub struct Tr3moon {
-    #[asn(complex(Tplain, tag(UNIVERSAL(16))))] pub f0: Tplain,
-    #[asn(optional(complex(Tsmall, tag(UNIVERSAL(2)))))] pub f1: Option<Tsmall>,
-    #[asn(optional(complex(Tplain, tag(UNIVERSAL(16)))))] pub f2: Option<Tplain>,
+    #[asn(complex(Tchoice, tag(UNIVERSAL(1))))] pub f0: Tchoice,
+    #[asn(optional(complex(Tplain, tag(UNIVERSAL(16)))))] pub f1: Option<Tplain>,
+    #[asn(optional(complex(Tsmall, tag(UNIVERSAL(2)))))] pub f2: Option<Tsmall>,
 }
 
 impl Tr3moon {
@@ -677,9 +715,9 @@ impl Tr3moon {
 
 #[derive(Default, Debug, Clone, PartialEq, Hash)]
 pub struct Tr3mooe0 {
-    #[asn(complex(Tplain, tag(UNIVERSAL(16))))] pub f0: Tplain,
-    #[asn(optional(complex(Tsmall, tag(UNIVERSAL(2)))))] pub f1: Option<Tsmall>,
-    #[asn(optional(complex(Tplain, tag(UNIVERSAL(16)))))] pub f2: Option<Tplain>,
+    #[asn(complex(Tchoice, tag(UNIVERSAL(1))))] pub f0: Tchoice,
+    #[asn(optional(complex(Tplain, tag(UNIVERSAL(16)))))] pub f1: Option<Tplain>,
+    #[asn(optional(complex(Tsmall, tag(UNIVERSAL(2)))))] pub f2: Option<Tsmall>,
 }
 
 impl Tr3mooe0 {
@@ -689,9 +727,9 @@ impl Tr3mooe0 {
 
 #[derive(Default, Debug, Clone, PartialEq, Hash)]
 pub struct Tr3mooe1 {
-    #[asn(complex(Tplain, tag(UNIVERSAL(16))))] pub f0: Tplain,
-    #[asn(optional(complex(Tsmall, tag(UNIVERSAL(2)))))] pub f1: Option<Tsmall>,
-    #[asn(optional(complex(Tplain, tag(UNIVERSAL(16)))))] pub f2: Option<Tplain>,
+    #[asn(complex(Tchoice, tag(UNIVERSAL(1))))] pub f0: Tchoice,
+    #[asn(optional(complex(Tplain, tag(UNIVERSAL(16)))))] pub f1: Option<Tplain>,
+    #[asn(optional(complex(Tsmall, tag(UNIVERSAL(2)))))] pub f2: Option<Tsmall>,
 }
 
 impl Tr3mooe1 {
@@ -701,9 +739,9 @@ impl Tr3mooe1 {
 
 #[derive(Default, Debug, Clone, PartialEq, Hash)]
 pub struct Tr3mooe2 {
-    #[asn(complex(Tplain, tag(UNIVERSAL(16))))] pub f0: Tplain,
-    #[asn(optional(complex(Tsmall, tag(UNIVERSAL(2)))))] pub f1: Option<Tsmall>,
-    #[asn(optional(complex(Tplain, tag(UNIVERSAL(16)))))] pub f2: Option<Tplain>,
+    #[asn(complex(Tchoice, tag(UNIVERSAL(1))))] pub f0: Tchoice,
+    #[asn(optional(complex(Tplain, tag(UNIVERSAL(16)))))] pub f1: Option<Tplain>,
+    #[asn(optional(complex(Tsmall, tag(UNIVERSAL(2)))))] pub f2: Option<Tsmall>,
 }
 
 impl Tr3mooe2 {
@@ -713,9 +751,9 @@ impl Tr3mooe2 {
 
 #[derive(Default, Debug, Clone, PartialEq, Hash)]
 pub struct Tr3mooe3 {
-    #[asn(complex(Tplain, tag(UNIVERSAL(16))))] pub f0: Tplain,
-    #[asn(optional(complex(Tsmall, tag(UNIVERSAL(2)))))] pub f1: Option<Tsmall>,
-    #[asn(optional(complex(Tplain, tag(UNIVERSAL(16)))))] pub f2: Option<Tplain>,
+    #[asn(complex(Tchoice, tag(UNIVERSAL(1))))] pub f0: Tchoice,
+    #[asn(optional(complex(Tplain, tag(UNIVERSAL(16)))))] pub f1: Option<Tplain>,
+    #[asn(optional(complex(Tsmall, tag(UNIVERSAL(2)))))] pub f2: Option<Tsmall>,
 }
 
 impl Tr3mooe3 {
@@ -725,9 +763,9 @@ impl Tr3mooe3 {
 
 #[derive(Default, Debug, Clone, PartialEq, Hash)]
 pub struct Tr3ooon {
-    #[asn(optional(complex(Tplain, tag(UNIVERSAL(16)))))] pub f0: Option<Tplain>,
-    #[asn(optional(complex(Tsmall, tag(UNIVERSAL(2)))))] pub f1: Option<Tsmall>,
-    #[asn(optional(complex(Tplain, tag(UNIVERSAL(16)))))] pub f2: Option<Tplain>,
+    #[asn(optional(complex(Tchoice, tag(UNIVERSAL(1)))))] pub f0: Option<Tchoice>,
+    #[asn(optional(complex(Tplain, tag(UNIVERSAL(16)))))] pub f1: Option<Tplain>,
+    #[asn(optional(complex(Tsmall, tag(UNIVERSAL(2)))))] pub f2: Option<Tsmall>,
 }
 
 impl Tr3ooon {
@@ -737,9 +775,9 @@ impl Tr3ooon {
 
 #[derive(Default, Debug, Clone, PartialEq, Hash)]
 pub struct Tr3oooe0 {
-    #[asn(optional(complex(Tplain, tag(UNIVERSAL(16)))))] pub f0: Option<Tplain>,
-    #[asn(optional(complex(Tsmall, tag(UNIVERSAL(2)))))] pub f1: Option<Tsmall>,
-    #[asn(optional(complex(Tplain, tag(UNIVERSAL(16)))))] pub f2: Option<Tplain>,
+    #[asn(optional(complex(Tchoice, tag(UNIVERSAL(1)))))] pub f0: Option<Tchoice>,
+    #[asn(optional(complex(Tplain, tag(UNIVERSAL(16)))))] pub f1: Option<Tplain>,
+    #[asn(optional(complex(Tsmall, tag(UNIVERSAL(2)))))] pub f2: Option<Tsmall>,
 }
 
 impl Tr3oooe0 {
@@ -749,9 +787,9 @@ impl Tr3oooe0 {
 
 #[derive(Default, Debug, Clone, PartialEq, Hash)]
 pub struct Tr3oooe1 {
-    #[asn(optional(complex(Tplain, tag(UNIVERSAL(16)))))] pub f0: Option<Tplain>,
-    #[asn(optional(complex(Tsmall, tag(UNIVERSAL(2)))))] pub f1: Option<Tsmall>,
-    #[asn(optional(complex(Tplain, tag(UNIVERSAL(16)))))] pub f2: Option<Tplain>,
+    #[asn(optional(complex(Tchoice, tag(UNIVERSAL(1)))))] pub f0: Option<Tchoice>,
+    #[asn(optional(complex(Tplain, tag(UNIVERSAL(16)))))] pub f1: Option<Tplain>,
+    #[asn(optional(complex(Tsmall, tag(UNIVERSAL(2)))))] pub f2: Option<Tsmall>,
 }
 
 impl Tr3oooe1 {
@@ -761,9 +799,9 @@ impl Tr3oooe1 {
 
 #[derive(Default, Debug, Clone, PartialEq, Hash)]
 pub struct Tr3oooe2 {
-    #[asn(optional(complex(Tplain, tag(UNIVERSAL(16)))))] pub f0: Option<Tplain>,
-    #[asn(optional(complex(Tsmall, tag(UNIVERSAL(2)))))] pub f1: Option<Tsmall>,
-    #[asn(optional(complex(Tplain, tag(UNIVERSAL(16)))))] pub f2: Option<Tplain>,
+    #[asn(optional(complex(Tchoice, tag(UNIVERSAL(1)))))] pub f0: Option<Tchoice>,
+    #[asn(optional(complex(Tplain, tag(UNIVERSAL(16)))))] pub f1: Option<Tplain>,
+    #[asn(optional(complex(Tsmall, tag(UNIVERSAL(2)))))] pub f2: Option<Tsmall>,
 }
 
 impl Tr3oooe2 {
@@ -773,9 +811,9 @@ impl Tr3oooe2 {
 
 #[derive(Default, Debug, Clone, PartialEq, Hash)]
 pub struct Tr3oooe3 {
-    #[asn(optional(complex(Tplain, tag(UNIVERSAL(16)))))] pub f0: Option<Tplain>,
-    #[asn(optional(complex(Tsmall, tag(UNIVERSAL(2)))))] pub f1: Option<Tsmall>,
-    #[asn(optional(complex(Tplain, tag(UNIVERSAL(16)))))] pub f2: Option<Tplain>,
+    #[asn(optional(complex(Tchoice, tag(UNIVERSAL(1)))))] pub f0: Option<Tchoice>,
+    #[asn(optional(complex(Tplain, tag(UNIVERSAL(16)))))] pub f1: Option<Tplain>,
+    #[asn(optional(complex(Tsmall, tag(UNIVERSAL(2)))))] pub f2: Option<Tsmall>,
 }
 
 impl Tr3oooe3 {
@@ -802,6 +840,24 @@ impl ToValue for Tplain {
 }
 impl FromValue for Tsmall { fn from_value(v: &Value) -> Self { Tsmall(FromValue::from_value(v)) } }
 impl ToValue for Tsmall { fn to_value(&self) -> Value { self.0.to_value() } }
+impl FromValue for Tchoice {
+    fn from_value(v: &Value) -> Self {
+        let (i, inner) = match v { Value::Choice(i, inner) => (*i, &**inner), other => panic!("Tchoice: expected Choice, got {other:?}") };
+        match i {
+            0 => Tchoice::I(FromValue::from_value(inner)),
+            1 => Tchoice::B(FromValue::from_value(inner)),
+            _ => panic!("Tchoice: alternative index {i} out of range"),
+        }
+    }
+}
+impl ToValue for Tchoice {
+    fn to_value(&self) -> Value {
+        match self {
+            Tchoice::I(x) => Value::Choice(0, Box::new(x.to_value())),
+            Tchoice::B(x) => Value::Choice(1, Box::new(x.to_value())),
+        }
+    }
+}
 impl FromValue for Tr1mn {
     fn from_value(v: &Value) -> Self {
         let s = match v { Value::Seq(s) => s, other => panic!("Tr1mn: expected Seq, got {other:?}") };
